@@ -295,6 +295,8 @@ class Node:
             self._meta = values.copy()
         else:
             self._meta.update(values)
+        if not self._meta:
+            self._meta = None  # `meta` is None if empty
 
     def rename(self, new_name: str) -> None:
         """Set `self.data` to a new string (assuming plain string node)."""
